@@ -13,6 +13,7 @@ NPROBE = 6
 KV = ["U", "Z", ("V", 1), "M"]
 CAPKV = KV + ["N"]
 CAPS = ("cap_live", "cap_non")
+WORKKV = ["U", "Z", ("V", 1), ("V", 9), ("V", 10), ("V", 100), "M", "N"]     # ingest_worker_count
 LISTS = ["block", "allow", "phantom", "domains"]
 KEYS = ["dur_live", "cap_live", "dur_non", "cap_non", "workers", "public", "geo_cc", "geo_asn"]
 BAD_CIDR = ["fc00::/7 ", "198.18.0.0/33", "not-a-subnet", "", "198.18.1.0", " 10.0.0.0/8", "2001:db8::/129"]
@@ -53,7 +54,10 @@ def toml_of(raw, rng):
     kvline("cache_capacity", raw["cap_live"], "0", lambda n: str(n), '"many"')
     kvline("cache_expiration_nonlive", raw["dur_non"], '""', lambda n: '"%s"' % ["0s", "2.0h", "5m", "90s"][n % 4], '"%s"' % rng.choice(["abc", "ten minutes", "-"]))
     kvline("cache_capacity_nonlive", raw["cap_non"], "0", lambda n: str(n), "true")
-    kvline("ingest_worker_count", raw["workers"], "0", lambda n: str(n), '"100"')
+    if raw["workers"] == "N":
+        out.append("ingest_worker_count = %d" % rng.choice([-1, -9, -10, -50, -300]))
+    else:
+        kvline("ingest_worker_count", raw["workers"], "0", lambda n: str(n), '"100"')
     kvline("covert_blocklist_public_addrs", raw["public"], "false", lambda n: "true", '"yes"')
     kvline("geoip_cc_db_path", raw["geo_cc"], '""', lambda n: '"/nonexistent"', '"/nonexistent/verif/cc.mmdb"')
     kvline("geoip_asn_db_path", raw["geo_asn"], '""', lambda n: '"/nonexistent"', '"/nonexistent/verif/asn.mmdb"')
@@ -94,7 +98,7 @@ def g_file(f):
 def g_sub(s):
     if s[0] == "ok":
         return "(SubOk %s)" % glist(sorted(s[1]), gN)
-    return "SubUnreadable" if s[0] == "unreadable" else "SubMalformed"
+    return "SubUnreadable" if s[0] == "unreadable" else "SubMalformed"      # malformed and malformed2
 
 
 def sub_text(s):
@@ -105,6 +109,20 @@ def sub_text(s):
         return {"kind": "text", "text": t}
     if s[0] == "malformed":
         return {"kind": "text", "text": "[Networks\n  Generation = = 1\n"}
+    if s[0] == "malformed2":
+        # valid TOML of the wrong shape: it fails in the SECOND stage of SubnetsFromTomlFile (unmarshal / generation keys),
+        # after some generations may already have been read
+        good = ""
+        for g in (5, 6, 8):
+            good += " [Networks.%d]\n  Generation = %d\n  [[Networks.%d.WeightedSubnets]]\n   Weight = 9\n   Subnets = [\"192.122.%d.0/24\"]\n" % (g, g, g, g)
+        variants = [
+            "[Networks]\n" + good + " [Networks.next]\n  Generation = 9\n  [[Networks.next.WeightedSubnets]]\n   Weight = 1\n   Subnets = [\"10.9.0.0/16\"]\n",
+            "Networks = [1, 2, 3]\n",
+            "[Networks]\n" + good + " [Networks.7]\n  Generation = 7\n  [[Networks.7.WeightedSubnets]]\n   Weight = \"heavy\"\n   Subnets = [\"10.7.0.0/16\"]\n",
+            "[Networks]\n" + good + " [Networks.7]\n  Generation = 7\n  WeightedSubnets = \"none\"\n",
+            "[Networks]\n [Networks.one]\n  Generation = 1\n" + good,
+        ]
+        return {"kind": "text", "text": variants[s[1] % len(variants)]}
     return {"kind": "unreadable"}
 
 
@@ -153,10 +171,10 @@ def rand_list(rng, allow_bad, nmax=4):
 def rand_raw(rng, p_bad=0.25, well_formed=False):
     r = default_raw()
     for k in KEYS:
-        v = rng.choice(CAPKV if k in CAPS else KV)
+        v = rng.choice(CAPKV if k in CAPS else WORKKV if k == "workers" else KV)
         if v == "M" and (well_formed or rng.random() > p_bad * 2):
             v = rng.choice(["U", "Z", ("V", 1)])
-        if isinstance(v, tuple):
+        if isinstance(v, tuple) and k != "workers":
             v = ("V", rng.choice([1, 2, 3, 7]))
         if k in ("geo_cc", "geo_asn") and isinstance(v, tuple):
             v = "Z"                                   # no GeoIP database is available in the sandbox
@@ -169,7 +187,7 @@ def rand_raw(rng, p_bad=0.25, well_formed=False):
 
 def pairwise_raws(rng):
     """every pair of (key, value-class) over the optional keys appears in some record (greedy covering)"""
-    dims = {k: list(CAPKV if k in CAPS else KV) for k in KEYS}
+    dims = {k: list(CAPKV if k in CAPS else WORKKV if k == "workers" else KV) for k in KEYS}
     dims["geo_cc"] = dims["geo_asn"] = ["U", "Z", "M"]
     for l in LISTS:
         dims[l] = ["unset", "empty", "valid", "bad"]
@@ -200,7 +218,7 @@ def single_key_raws():
     """each key alone in each of its classes (incl. the files that contain no RegConfig key at all)"""
     out = [default_raw(), dict(default_raw(), other=True)]
     for k in KEYS:
-        for v in (CAPKV if k in CAPS else KV):
+        for v in (CAPKV if k in CAPS else WORKKV if k == "workers" else KV):
             if k in ("geo_cc", "geo_asn") and isinstance(v, tuple):
                 continue
             if v != "U":
@@ -210,7 +228,7 @@ def single_key_raws():
             out.append(dict(default_raw(), **{l: v}))
     # liveness: the full product of the four cache keys
     for dl, cl, dn, cn in itertools.product(KV, CAPKV, KV, CAPKV):
-        out.append(dict(default_raw(), dur_live=dl, cap_live=cl, dur_non=dn, cap_non=cn, workers=("V", 2)))
+        out.append(dict(default_raw(), dur_live=dl, cap_live=cl, dur_non=dn, cap_non=cn, workers=WORKKV[len(out) % len(WORKKV)]))
     return out
 
 
@@ -231,7 +249,7 @@ def gen_cases(ctx):
     for r in pairwise_raws(rng):
         cases.append(([(("raw", r), good_sub)], "start/pairwise"))
     for _ in range(300 if quick else 6000):
-        cases.append(([(("raw", rand_raw(rng)), rng.choice([good_sub, good_sub, ("unreadable",), ("malformed",)]))], "start/random"))
+        cases.append(([(("raw", rand_raw(rng)), rng.choice([good_sub, good_sub, good_sub, ("unreadable",), ("malformed",), ("malformed2", rng.randrange(5))]))], "start/random"))
     for f in (("unreadable",), ("syntax",)):
         cases.append(([(f, good_sub)], "start/nofile"))
     # reload sequences of length <= 3 over a file alphabet
@@ -239,7 +257,8 @@ def gen_cases(ctx):
     B = dict(default_raw(), dur_non=("V", 2), workers=("V", 2), block=[2], allow=[3, 4], domains=[1, 5], phantom=[], public=("V", 1))
     cfg_alpha = [("raw", A), ("raw", B), ("raw", dict(A, block=[0, None, 1])), ("raw", dict(B, domains=[1, None])),
                  ("raw", dict(A, allow=[None])), ("syntax",), ("raw", dict(A, cap_live="M")), ("unreadable",), ("raw", default_raw()), ("shipped",)]
-    sub_alpha = [("ok", [1, 2]), ("ok", [3]), ("malformed",), ("unreadable",)]
+    sub_alpha = [("ok", [1, 2]), ("ok", [3]), ("malformed",), ("unreadable",), ("malformed2", 0), ("malformed2", 1), ("malformed2", 2),
+                 ("malformed2", 3), ("malformed2", 4)]
     alpha = [(f, s) for f in cfg_alpha for s in sub_alpha]
     starts = [(("raw", A), ("ok", [1, 2])), (("raw", B), ("ok", [7])), (("shipped",), ("ok", [1]))]
     if quick:
@@ -262,7 +281,7 @@ def gen_cases(ctx):
         seq = []
         for _ in range(rng.randrange(1, 4)):
             f = rng.choice([("raw", rand_raw(rng)), ("raw", rand_raw(rng, well_formed=True)), ("syntax",), ("unreadable",)])
-            seq.append((f, rng.choice([("ok", [rng.randrange(1, 9)]), ("malformed",), ("unreadable",)])))
+            seq.append((f, rng.choice([("ok", [rng.randrange(1, 9)]), ("malformed",), ("unreadable",), ("malformed2", rng.randrange(5))])))
         cases.append(([st] + seq, "reload/random"))
     return cases
 
@@ -292,7 +311,8 @@ def expected_decisions(raw):
 
 
 def hk_ok(o):
-    return all(v == "ok" for v in o["prints"].values()) and o.get("expiry", "ok") in ("ok", "")
+    return (all(v == "ok" for v in o["prints"].values()) and o.get("expiry", "ok") in ("ok", "")
+            and all(v == "ok" for v in (o.get("prints_running") or {}).values()) and (o.get("pipe") or "ok") == "ok")
 
 
 def cache_class(raw):
@@ -306,7 +326,7 @@ def oracle(ctx, steps, res, shipped_ok):
     obs = res["obs"]
     if not obs:
         return
-    cur_pol, cur_gens = None, None
+    cur_pol, cur_gens, cur_sig = None, None, None
     for i, (o, (f, s)) in enumerate(zip(obs, steps)):
         raw = raw_of(f)
         where = "start-up" if i == 0 else "reload %d" % i
@@ -324,6 +344,18 @@ def oracle(ctx, steps, res, shipped_ok):
                 start_raw = raw_of(steps[0][0])
                 ctx.fail("panic:print/%s/%s" % ("liveness" if mod.startswith("liveness") or mod == "all" else mod, cache_class(start_raw) if start_raw else "?"),
                          "statistics printer %s panicked after %s: %s" % (mod, where, v), dict(case, step=i))
+        for mod, v in (o.get("prints_running") or {}).items():
+            if v != "ok":
+                start_raw = raw_of(steps[0][0])
+                w = start_raw["workers"] if start_raw else "?"
+                wcls = "1-9" if isinstance(w, tuple) and 1 <= w[1] <= 9 else ">=10" if isinstance(w, tuple) else str(w)
+                ctx.fail("panic:print-running/%s/workers=%s" % ("liveness" if mod.startswith("liveness") else mod, wcls),
+                         "with the ingest pipeline running (ingest_worker_count %s, job buffer capacity %s) the statistics printer %s panicked after %s: %s"
+                         % (w, (o.get("pipecap") or 0) - 1, mod, where, v), dict(case, step=i))
+        if i == 0 and (o.get("pipe") or "ok") not in ("ok", "skipped", ""):
+            start_raw = raw_of(steps[0][0])
+            ctx.fail("panic:ingest-launch/workers=%s" % (start_raw["workers"] if start_raw else "?",),
+                     "HandleRegUpdates on an accepted configuration did not start normally: %s" % o["pipe"], dict(case, step=i))
         if o.get("expiry", "ok") not in ("ok", ""):
             ctx.fail("panic:expiry", "RemoveOldRegistrations panicked after %s: %s" % (where, o["expiry"]), dict(case, step=i))
         # --- accepted => every written entry enforced
@@ -345,7 +377,7 @@ def oracle(ctx, steps, res, shipped_ok):
         if i == 0:
             if o["mgr"] != "ok":
                 return
-            cur_pol, cur_gens = (o["covert"], o["loop"], o["domain"], o["phantom"]), o["gens"]
+            cur_pol, cur_gens, cur_sig = (o["covert"], o["loop"], o["domain"], o["phantom"]), o["gens"], o.get("gensig")
         else:
             pol = (o["covert"], o["loop"], o["domain"], o["phantom"])
             if not accepted:
@@ -357,7 +389,10 @@ def oracle(ctx, steps, res, shipped_ok):
                 if o["gens"] != want_gens:
                     ctx.fail("reload:subnets-part/%s" % s[0], "after a reload with a %s subnet file the selector holds generations %s, expected %s"
                              % (s[0], o["gens"], want_gens), dict(case, step=i))
-            cur_pol, cur_gens = pol, o["gens"]
+            if (not accepted or s[0] != "ok") and (o["gens"] != cur_gens or o.get("gensig") != cur_sig):
+                ctx.fail("reload:subnets-part/%s" % s[0], "after a reload whose %s did not load the phantom subnets in force changed: generations %s -> %s"
+                         % ("configuration" if not accepted else "subnet file (%s)" % s[0], cur_gens, o["gens"]), dict(case, step=i))
+            cur_pol, cur_gens, cur_sig = pol, o["gens"], o.get("gensig")
 
 
 # ------------------------------------------------------------------ Gallina emission of observations
@@ -369,8 +404,9 @@ def g_obs(o, i, nprobe):
     else:
         stage = 0 if o["reload"] == "ok" else 1 if o["reload"] == "skipped" else 9
     bl = lambda l: glist(l or [], gbool)
-    return "(mkObs %s %s %s %s %s %s %s %s)" % (gN(parse), gN(stage), gbool(hk_ok(o)), bl(o["covert"]), gbool(bool(o["loop"])),
-                                                bl(o["domain"]), bl(o["phantom"]), glist([g if g >= 0 else 99999 for g in (o["gens"] or [])], gN))
+    return "(mkObs %s %s %s %s %s %s %s %s %s)" % (gN(parse), gN(stage), gbool(hk_ok(o)), bl(o["covert"]), gbool(bool(o["loop"])),
+                                                   bl(o["domain"]), bl(o["phantom"]), glist([g if g >= 0 else 99999 for g in (o["gens"] or [])], gN),
+                                                   gN(o.get("pipecap") or 0))
 
 
 # ------------------------------------------------------------------ the real SIGHUP loop of cmd/application/main.go
@@ -415,6 +451,19 @@ def run_reload_real(ctx, cases):
     js = [{"nprobe": NPROBE, "steps": [{"cfg": cfg_json(f, ctx.rng), "sub": sub_text(s)} for f, s in steps]} for steps, _ in sel]
     rc, out, res = ctx.go_inpkg("cmd/application", ".", {"zz_verif_driver_test.go": "c19/reload_driver_test.go", "zz_verif_reloadcut.go": path},
                                 "^TestVerifC19Reload$", js, env={"VERIF_C19_SHIPPED": os.path.join(lib.REPO, "cmd/application/app_config.toml")})
+    # connStats: every connection-state transition around the periodic PrintAndReset (same test binary)
+    rc3, out3, res3 = ctx.go_inpkg("cmd/application", ".", {"zz_verif_driver_test.go": "c19/reload_driver_test.go", "zz_verif_reloadcut.go": path},
+                                   "^TestVerifC19ConnStats$", None)
+    if res3 is None:
+        ctx.broken("driver", "connStats driver produced no results: %s" % out3[-600:])
+    else:
+        for r in res3:
+            ctx.count(("connstats", r["transition"], r["scenario"], r["v4"], r["cc"]), kind="connstats/" + r["scenario"])
+            if r["outcome"] != "ok":
+                ctx.fail("panic:connStats/%s/%s" % (r["transition"], r["scenario"]),
+                         "connStats.%s(asn, %r, v4=%s) in scenario %s panicked (the station's connection goroutine would die): %s"
+                         % (r["transition"], r["cc"], r["v4"], r["scenario"], r["outcome"]), r)
+        ctx.cov["connstats"] = {"cases": len(res3), "panics": sum(1 for r in res3 if r["outcome"] != "ok")}
     if os.path.exists(path) and os.environ.get("VERIF_KEEP") != "1":
         os.remove(path)
     if res is None or len(res) != len(sel):
@@ -431,7 +480,7 @@ def run_reload_real(ctx, cases):
             continue
         cur = (obs[0]["covert"], obs[0]["loop"], obs[0]["phantom"])
         cur_gens = obs[0]["gens"]
-        gobs = ["(mkObs 0 0 true %s %s [] %s %s)" % (glist(obs[0]["covert"], gbool), gbool(obs[0]["loop"]), glist(obs[0]["phantom"], gbool), glist(cur_gens, gN))]
+        gobs = ["(mkObs 0 0 true %s %s [] %s %s 0)" % (glist(obs[0]["covert"], gbool), gbool(obs[0]["loop"]), glist(obs[0]["phantom"], gbool), glist(cur_gens, gN))]
         for i, (o, (f, s)) in enumerate(list(zip(obs, steps))[1:], start=1):
             if o["stage"] != "ok":
                 ctx.fail("panic:reload-loop", "the SIGHUP loop of main.go panicked on reload %d: %s" % (i, o["stage"]), dict(case, step=i))
@@ -452,7 +501,7 @@ def run_reload_real(ctx, cases):
                 if o["gens"] != want:
                     ctx.fail("reload:subnets-part/%s" % s[0], "after main.go's reload loop the selector holds generations %s, expected %s" % (o["gens"], want), dict(case, step=i))
             cur, cur_gens = pol, o["gens"]
-            gobs.append("(mkObs %s %s true %s %s [] %s %s)" % (gN(0 if loads else 1), gN(0 if loads else 1), glist(o["covert"], gbool), gbool(o["loop"]),
+            gobs.append("(mkObs %s %s true %s %s [] %s %s 0)" % (gN(0 if loads else 1), gN(0 if loads else 1), glist(o["covert"], gbool), gbool(o["loop"]),
                                                               glist(o["phantom"], gbool), glist([g if g >= 0 else 99999 for g in o["gens"]], gN)))
         if any(f[0] == "shipped" for f, _ in steps) and not ctx.cov.get("shipped_ok", True):
             continue
@@ -579,6 +628,9 @@ def run(ctx):
         cls = "none" if o0 is None else o0["parse"] if o0["parse"] != "ok" else ("fatal" if o0["live"] == "err" else "mgr-" + str(o0["mgr"])[:5])
         ctx.count(repr(steps), nontrivial=o0 is not None, kind=tag)
         ctx.cov["histogram"]["startup/" + cls] = ctx.cov["histogram"].get("startup/" + cls, 0) + 1
+        if o0 is not None and o0.get("pipecap"):
+            k = "pipecap/%d" % (o0["pipecap"] - 1)
+            ctx.cov["histogram"][k] = ctx.cov["histogram"].get(k, 0) + 1
         for o in r["obs"][1:]:
             k = "reloadstep/" + o["parse"]
             ctx.cov["histogram"][k] = ctx.cov["histogram"].get(k, 0) + 1
@@ -591,7 +643,8 @@ def run(ctx):
     for steps, r in keep[:1] + keep[-2:]:
         ctx.sample({"steps": [[list(f)[:1], list(s)] for f, s in steps], "observed": [{k: o[k] for k in ("parse", "live", "mgr", "reload", "covert", "gens")} for o in r["obs"]]})
     ctx.require_kinds(["start/shipped", "start/single", "start/pairwise", "start/random", "reload/len1", "reload/len23", "reload/random",
-                       "startup/err", "startup/fatal", "startup/mgr-ok", "startup/mgr-nil", "reloadstep/ok", "reloadstep/err"])
+                       "startup/err", "startup/fatal", "startup/mgr-ok", "startup/mgr-nil", "reloadstep/ok", "reloadstep/err",
+                       "pipecap/0", "pipecap/1", "pipecap/10", "pipecap/30"])
     mm = ctx.coq_mismatches("cfg", HEADER, terms, "chk", shard=max(100, len(terms) // 15 + 1), need_vo=["C19/Run.vo"])
     if mm:
         ctx.cov["mismatches"] += len(mm)
